@@ -6,6 +6,8 @@ CONSTANTS
   ExtSets = {"none", "all"}
   IdKinds = {"fresh", "pending"}
   Peers = {"OwnBare", "Domain", "Contact", "ContactBare"}
+  Deferred = FALSE
+  MaxHosts = 2
   MaxHist = 99
 VIEW PendView
 ACTION_CONSTRAINT EmitBehaviour
